@@ -9,9 +9,6 @@ import (
 	"testing"
 	"time"
 
-	"github.com/fabiolb/fabio/config"
-	"github.com/fabiolb/fabio/metrics"
-	"github.com/fabiolb/fabio/proxy"
 	"github.com/fabiolb/fabio/route"
 	"pgregory.net/rapid"
 
@@ -38,13 +35,10 @@ func TestC09DynamicListenerTunnel(t *testing.T) {
 		}
 	}()
 	hx.Check(t, hx.Scale(4, 40), func(t *rapid.T) {
-		refresh := time.Duration(rapid.SampledFrom([]int{10, 25, 60}).Draw(t, "refresh_ms")) * time.Millisecond
+		dynFabio(t)
+		refresh := dynRefresh
 		dynAddr := freeAddr()
 		_, dynPort, _ := net.SplitHostPort(dynAddr)
-		cfg, err := config.Load([]string{"fabio", "-proxy.addr", fmt.Sprintf("127.0.0.1:0;proto=tcp-dynamic;refresh=%s", refresh)}, nil)
-		if err != nil {
-			t.Fatalf("config: %v", err)
-		}
 		base := fmt.Sprintf("route add dyn :%s tcp://%s\n", dynPort, echo.Addr())
 		set := func(text string) {
 			tbl, err := route.NewTable(bytes.NewBufferString(text))
@@ -54,12 +48,7 @@ func TestC09DynamicListenerTunnel(t *testing.T) {
 			route.SetTable(tbl)
 		}
 		set(base)
-		flex(startServers, cfg, metrics.Provider(metrics.DiscardProvider{}))
-		defer func() {
-			set("route add none /none http://127.0.0.1:1/\n")
-			time.Sleep(3 * refresh)
-			proxy.Shutdown(10 * time.Millisecond)
-		}()
+		defer set("route add none /none http://127.0.0.1:1/\n") // the loop terminates the listener of this case
 		dynListen := "127.0.0.1:" + dynPort
 		if !waitListening(dynListen) {
 			t.Fatalf("VERIF-INCONCLUSIVE the dynamic listener on :%s did not come up", dynPort)
